@@ -78,6 +78,11 @@ func checkC10(c c10Case) (*core.Failure, string) {
 					e.Subject = append(e.Subject, core.RDN{Key: "OU", Value: "edited"})
 					d.Put(e.File, e.Render())
 				}
+			case "edit-ext": // changes the certificate but neither its name nor its key
+				if e := w.Ent(parts[1]); e != nil {
+					e.Extensions = append(e.Extensions, core.Extension{Kind: core.KCUSTOM, OID: "1.2.3.4.5.6", Raw: core.Bin([]byte{5, 0})})
+					d.Put(e.File, e.Render())
+				}
 			}
 		}
 	}
@@ -99,6 +104,7 @@ func checkC10(c c10Case) (*core.Failure, string) {
 	if !res1.OK() {
 		return nil, "run1-failed" // a failing first run makes no claim (counted trivial)
 	}
+	identical := 0
 	for p := range allowed {
 		found := false
 		for _, q := range changed {
@@ -106,8 +112,12 @@ func checkC10(c c10Case) (*core.Failure, string) {
 				found = true
 			}
 		}
-		if !found {
-			return core.Failf("C10/planned-not-written", "entity reported as generated but %s was not written (%v)\n%s", p, res1.Changes, desc()), "run1"
+		if !found && d.Files[p] == nil {
+			return core.Failf("C10/planned-not-written", "entity reported as generated but %s does not exist (%v)\n%s", p, res1.Changes, desc()), "run1"
+		}
+		// (an artifact left exactly as it was may have been re-issued to the same bytes; the second run decides)
+		if b := before.Files[p]; b != nil && d.Files[p] != nil && bytes.Equal(b.Data, d.Files[p].Data) {
+			identical++
 		}
 	}
 	// every config/profile/bystander byte-identical (implied by the diff rule, asserted for clarity)
@@ -129,10 +139,50 @@ func checkC10(c c10Case) (*core.Failure, string) {
 	if diff := snap.Diff(d); len(diff) > 0 {
 		return core.Failf("C10/rerun-writes", "second run changed %v\n%s", diff, desc()), "run2"
 	}
+	if identical > 0 {
+		return nil, "ok-reissued-byte-identical"
+	}
 	return nil, "ok"
 }
 
+// genC10Deterministic builds a chain whose regenerated certificates come out byte-identical: RSA issuers
+// (PKCS#1 v1.5), configured serials, absolute validity, keys reused after the priming run. An issuer is then
+// edited in a way that leaves its name and key alone, so that its subscribers are re-issued with the very
+// bytes they already have - and the run after that must still find nothing to do.
+func genC10Deterministic(t *rapid.T) c10Case {
+	var f forest
+	f.Imported = map[string]string{}
+	tiers := rapid.IntRange(2, 3).Draw(t, "det-tiers")
+	issuer := ""
+	for i := 0; i < tiers; i++ {
+		serial := int64(1000 + i)
+		e := core.Entity{File: fmt.Sprintf("%st%d.yaml", strings.Repeat("d/", i), i), Subject: []core.RDN{{Key: "CN", Value: fmt.Sprintf("C10 det %d", i)}},
+			Issuer: issuer, Serial: &serial, Validity: &core.Validity{From: "2020-01-01", Until: "2045-06-07"},
+			KeyAlg: rapid.SampledFrom([]string{"RSA-1024", "RSA-2048"}).Draw(t, fmt.Sprintf("det-alg%d", i)),
+			SigAlg: rapid.SampledFrom([]string{"RSAwithSHA256", "RSAwithSHA1", "RSAwithSHA512"}).Draw(t, fmt.Sprintf("det-sig%d", i))}
+		if i == tiers-1 {
+			e.KeyAlg = rapid.SampledFrom([]string{"RSA-1024", "P-256", "brainpoolP256r1", ""}).Draw(t, "det-leafalg")
+		}
+		if i > 0 && rapid.Bool().Draw(t, fmt.Sprintf("det-kid%d", i)) {
+			e.Extensions = []core.Extension{{Kind: core.KAKI, HasContent: true, AKI: "hash"}, {Kind: core.KSKI, HasContent: true, SKI: "hash"}}
+		}
+		issuer = e.EffAlias()
+		f.W.Ents = append(f.W.Ents, e)
+	}
+	f.W.Files = map[string][]byte{}
+	edited := rapid.IntRange(0, tiers-2).Draw(t, "det-edited")
+	c := c10Case{F: f, Flags: core.FlagDefault, Backend: rapid.SampledFrom([]string{"memfs", "memfs", "mapfs", "native"}).Draw(t, "backend"), Prime: true,
+		Perturb: []string{"edit-ext:" + f.W.Ents[edited].EffAlias()}}
+	if rapid.Bool().Draw(t, "det-flags") {
+		c.Flags = rapid.SampledFrom([]int{core.FlagDefault, core.FlagDefault | core.FlagNewer, core.FlagDefault | core.FlagExpired}).Draw(t, "det-flagset")
+	}
+	return c
+}
+
 func genC10(t *rapid.T) c10Case {
+	if rapid.IntRange(0, 7).Draw(t, "deterministic-chain") == 0 {
+		return genC10Deterministic(t)
+	}
 	f := genForest(t, forestOpts{MaxEntities: 5, MaxDepth: 3, KeyAlgs: []string{"P-256", "P-256", "P-224", "P-384", "brainpoolP256r1", "RSA-1024"},
 		PrePlaceRSA: 100, Mismatch: 0, Profiles: true, Extensions: true, Validity: true, Imported: 15})
 	w := &f.W
